@@ -226,6 +226,7 @@ def r1(repo, run):
             else:
                 raise AnalysisError('C09.R1: loop `%s` in %s cannot be classified and is not in the table' % (desc, fi.qualname))
     xref_guard(repo, run)
+    chain_condition(repo, run)
 
 
 XNI = {'get_node', 'evaluate_node', 'get_str_path'}
@@ -267,6 +268,36 @@ def xref_guard(repo, run):
         run.violation('C09.R1', tr.where(fi, bad[0]), 'reference chasing: ' + bad[0].callee, 'reference-chasing loop without a cycle guard: %s. A reference cycle (also one that the start node is not part of) never terminates' % bad[1])
     else:
         run.ok('C09.R1', fi, 'reference chasing: ctx.get_node(<current>)', 'cycle guard: key of the current node tested against a visited collection that receives it every iteration; a revisit raises')
+
+
+def chain_condition(repo, run):
+    """the chain is followed exactly while the current node is a reference: every dereference happens with the current node
+    known to be an XRefNode, and what is finally evaluated is known not to be one"""
+    fi, paths = _xref_paths(repo)
+    n = 0
+    bad = set()
+    for p in paths:
+        for e in _lookups(p):
+            n += 1
+            cur = e.args[0].text
+            if cur.startswith('carried(') and cur.endswith(')'):
+                cur = cur[len('carried('):-1]
+            if not any(pol and t in ('isinstance(%s, XRefNode)' % cur, 'isinstance(carried(%s), XRefNode)' % cur) for t, pol in e.facts):
+                bad.add('%s is dereferenced without being known to be a reference (facts: %s)' % (cur[:40], [t for t, _ in e.facts][-2:]))
+        if p.status == 'return':
+            fin = [e for e in p.events if e.kind == 'call' and e.attr == 'evaluate_node' and e.args]
+            if not fin:
+                continue
+            tgt = fin[-1].args[0].text
+            known = [pol for t, pol in fin[-1].facts if t in ('isinstance(%s, XRefNode)' % tgt, 'isinstance(carried(%s), XRefNode)' % tgt)]
+            if not known or known[-1] is not False:
+                bad.add('the node finally evaluated (%s) is not known to be a non-reference: the chain may stop early (or never start)' % tgt[:50])
+    if not n:
+        raise AnalysisError('C09.R1: the reference-chasing loop of XRefNode.on_evaluate_impl was not found')
+    if bad:
+        run.violation('C09.R1', fi, 'chain-following condition', '; '.join(sorted(bad)[:2]))
+    else:
+        run.ok('C09.R1', fi, 'the chain is followed while isinstance(<current>, XRefNode); the first non-reference is what gets evaluated')
 
 
 def r2r3(repo, run):
@@ -405,6 +436,7 @@ def check(repo, run, tier):
 
 def mutants(repo):
     return [
+        Mutant('chain-condition-negated', lambda r: in_func(r, 'XRefNode.ayns.on_evaluate_impl', "while isinstance(curr, XRefNode):", "while not isinstance(curr, XRefNode):"), ['C09.R1']),
         Mutant('error-position-of-config-nodes', lambda r: in_func(r, 'Error.__init__', "if self.stage == 'parsing':", "if self.stage != 'parsing':"), ['C09.R5']),
         Mutant('F4-reverted-no-cycle-guard', lambda r: in_func(r, 'XRefNode.ayns.on_evaluate_impl',
                "            if id(curr) in visited:\n                raise ValueError(f'Circular reference detected while following a chain of references: {chain}')\n            visited.add(id(curr))\n", ""), ['C09.R1']),
